@@ -199,10 +199,13 @@ func lits(a, b ast.WordPart) bool {
 		// "$" would swallow what follows
 		return strings.HasSuffix(a.Value, "$")
 	case *ast.ParamExp:
-		// "$name" would go on in a literal which starts like a name
+		// "$name" would go on in a literal which starts like a name ("$1"
+		// and the special parameters end after one character anyway)
 		if b, ok := b.(*ast.Lit); ok && !a.Braces && a.Name != nil {
-			r, _ := utf8.DecodeRuneInString(b.Value)
-			return r == '_' || unicode.IsLetter(r) || unicode.IsDigit(r)
+			if n, _ := utf8.DecodeRuneInString(a.Name.Value); n == '_' || unicode.IsLetter(n) {
+				r, _ := utf8.DecodeRuneInString(b.Value)
+				return r == '_' || unicode.IsLetter(r) || unicode.IsDigit(r)
+			}
 		}
 	}
 	return false
